@@ -27,6 +27,7 @@ func runC18(c *Ctx) {
 	c.rule("M3", "an io.Writer that splits each chunk on a line separator and forwards the pieces keeps the trailing fragment in a field it both reads and writes", 1)
 	c.rule("M4", "logStreamer: each non-empty piece goes to exactly one of Log/LogError by the stream flag, no early exit, n=len(p); Stdout/Stderr get the out/err adapters over the command's loggers", 4)
 	c.rule("M6", "stop(): IsOn() is re-validated under the object's mutex before the command is stopped and an end message logged (exactly one end message per run across Execute and the monitor's Stop)", 1)
+	c.rule("M8", "the command of a subprocess is set up so that its pipes are read to the end: of the fields of exec.Cmd, WaitDelay (which makes Wait close the pipes and discard what was not read yet) is never set", 3)
 	c.rule("M5", "Output*: the string returned is the content of the string logger combined into the subprocess's loggers, read after Execute", 1)
 
 	exec := c.fn(spPkg, "(*Subprocess).Execute")
@@ -198,6 +199,7 @@ func runC18(c *Ctx) {
 	c.c18Tokenisers()
 	c.c18Routing()
 	c.c18Output()
+	c.c18PipesDrained()
 	c.c18StopRecheck()
 }
 
@@ -511,4 +513,41 @@ func ctxErrorInstead(l ssa.Value, run ssa.Value) bool {
 		}
 	}
 	return stores > 0
+}
+
+// c18PipesDrained (M8): "every line … reaches the logger … for any volume". exec.Cmd copies the child's pipes into the
+// Stdout/Stderr writers and Wait returns once they are drained — unless WaitDelay is set: then, that long after the child is
+// gone (or the context done), os/exec closes the pipes, drops whatever the loggers had not consumed yet and makes Run fail
+// with ErrWaitDelay even for a child that exited 0. Every store into a field of exec.Cmd in package subprocess is listed;
+// none is WaitDelay.
+func (c *Ctx) c18PipesDrained() {
+	for _, f := range c.srcFuncs(spPkg) {
+		allInstrs(f, func(in ssa.Instruction) {
+			st, ok := in.(*ssa.Store)
+			if !ok {
+				return
+			}
+			fa, ok := st.Addr.(*ssa.FieldAddr)
+			if !ok {
+				return
+			}
+			so := structOf(fa.X.Type())
+			if so == nil {
+				return
+			}
+			pt, isPtr := fa.X.Type().Underlying().(*types.Pointer)
+			if !isPtr {
+				return
+			}
+			nt, isNamed := pt.Elem().(*types.Named)
+			if !isNamed || nt.Obj().Pkg() == nil || nt.Obj().Pkg().Path() != "os/exec" || nt.Obj().Name() != "Cmd" {
+				return
+			}
+			field := so.Field(fa.Field).Name()
+			key := fname(outermost(f)) + "/exec.Cmd." + field
+			c.FuncsSeen[fname(outermost(f))] = true
+			c.check(field != "WaitDelay", "M8", key, c.ipos(st), "exec.Cmd."+field+" set",
+				"exec.Cmd.WaitDelay is set: once the child is gone, Wait gives the copying of its pipes that long and then closes them — the lines a slow logger had not consumed yet (or that a background part of the child's script writes later) are dropped, and a child that exited 0 is reported failed with 'WaitDelay expired before I/O complete'")
+		})
+	}
 }
